@@ -31,4 +31,9 @@ func init() {
 		"Trusted: as C01. Spurious-OOM bound assumes allocator metadata for < 2500 frames needs at most 2 pages.",
 		"deterministic simulation with fault injection: simulated boot, seeded histories incl. invalid frees, reference accounting model",
 		"DESIGN.md 5.1")
+	t("C09",
+		"Seeded search over schedules of 2-16 concurrent callers with preemption before every statement of the allocator's methods (go/ast-inserted yields in a copy of the current file) and at the real spinlock's yield seam: ownership exclusivity during the run, conservation and drain at quiescence, exact deadlock detection (a lock leaked on any return path blocks a later caller forever), linearizability of the recorded history (inline search on every run + porcupine v1.3.0 on a sample).",
+		"Trusted: simulation kit, instrumenter (statement granularity), reference frame sets. Not covered: true parallelism, weak memory. The anchor's 'static pairing of Acquire/Release' is replaced by executing every return path under contention (probes).",
+		"deterministic simulation: seeded scheduler over yield-instrumented real code; invariants + linearizability (porcupine) of recorded histories",
+		"DESIGN.md 5.1 / 4.3")
 }
